@@ -472,6 +472,10 @@ def run_native(cid, case_id, oracle):
     case = case_value(c, case_id)
     get_loader()
     w = Wd.NativeWorld(dict(oracle))
+    # contracts with a patient clock: natively the wait loop spins until its REAL deadline and asks the environment more
+    # often than the proof-world path did; the environment then repeats its last answer (env/rt.py).  Every other contract
+    # keeps the strict rule (a name the oracle lacks ends the native run: sample skipped / replay not reproduced)
+    Wd.NativeRT.repeat_last = getattr(c, "clock_patience", None) is not None
     call = c.setup(w, case)
     ret = exc = None
     try:
